@@ -1169,7 +1169,7 @@ def judge_ops_traces(ctx, pid, traces, invariants):
                 in_buffer = e["q"]
             held_is_buffer = e["form"] != "fresh"
     ctx.cov["aliased_redeliveries_with_new_content"] = redeliveries
-    if redeliveries < (100 if ctx.quick else 2000):
+    if redeliveries < (30 if ctx.quick else 600):      # (seeded samples gave 87..140 in quick: the guard must not sit at the edge)
         raise core.MachineryFailure(f"{pid}: only {redeliveries} calls re-deliver an overwritten buffer: aliasing is not exercised")
     acc, bad, _ = validate(ctx, traces, REPAIRED, invariants, f"{pid} operator replays", parts=4 if ctx.quick else 8)
     reported = 0
